@@ -11,19 +11,21 @@ connection is stable. It does not fire a second time until an offer/answer excha
 The theorems are about `NegNeeded.Reach`: every state one PeerConnection can get into by ANY sequence of
 API calls (AddTrack, RemoveTrack, AddTransceiverFromKind, CreateDataChannel, CreateOffer, CreateAnswer,
 SetLocalDescription, SetRemoteDescription with arbitrary remote descriptions of type offer, pranswer or answer,
-Close), tails of
+SetLocal/SetRemoteDescription(rollback), Close), tails of
 SetLocal/SetRemoteDescription(answer) and worker steps of the operations queue — the worker may run between an
 API call's setDescription and its tail, blocked operations finish, fail or stay blocked as the outside world
 decides.  The property's hypothesis (calls are sequential) is what makes an API call one step; "each one's queued
 work finishes before the next call" is NOT needed for the first and the second clause (they hold for every
 interleaving of calls and worker steps) and appears in the third as `quiescent` (observed after the queue drains).
 
-`events` is the ghost log of handler invocations (`fire`), completed exchanges (`stable`: setDescription
-succeeded with next state stable) and withdrawals (`withdrawn`: negotiationNeededOp found negotiation no
+`events` is the ghost log of handler invocations (`fire`), completed exchanges (`stable`: setDescription of an
+answer succeeded with next state stable), rollbacks (`rolledBack`: setDescription(rollback) succeeded, next state
+stable) and withdrawals (`withdrawn`: negotiationNeededOp found negotiation no
 longer needed and cleared a set [[NegotiationNeeded]], W3C 4.7.3.2.4).
 
-Finding (unchanged tree, W3C-conformant): the third sentence of the property is violated when the need is
-withdrawn and renewed — `C04_once_per_exchange_counterexample`.
+Findings (unchanged tree, both W3C-conformant): the third sentence of the property is violated when the need is
+withdrawn and renewed — `C04_once_per_exchange_counterexample` — and when a rollback brings the connection back
+to stable with the need still there — `C04_rollback_refire_events`.
 -/
 namespace WebrtcVerif.C04
 open WebrtcVerif.NegNeeded
@@ -42,6 +44,7 @@ theorem C04_fire_only_stable_open {pc : PC} (h : Reach pc) :
     cases e with
     | keep _ _ z => rw [z]; exact ih
     | stable _ _ z => rw [z]; exact ih
+    | rolledBack _ _ z => rw [z]; exact ih
     | withdrawn _ _ _ z => rw [z]; exact ih
     | fire _ _ _ z =>
       rw [z]
@@ -62,6 +65,7 @@ theorem C04_fired_matches_events {pc : PC} (h : Reach pc) :
     cases e with
     | keep _ y z => rw [z, y]; exact ih
     | stable _ y z => rw [z, y, List.count_append]; simp [ih]
+    | rolledBack _ y z => rw [z, y, List.count_append]; simp [ih]
     | withdrawn _ _ y z => rw [z, y, List.count_append]; simp [ih]
     | fire _ _ y z => rw [z, y, List.count_append]; simp [ih]
 
@@ -78,7 +82,7 @@ def sepBy (sep : Ev → Bool) : Bool → List Ev → Bool
   | a, e :: es => (if e == .fire then !a else true) && sepBy sep (if e == .fire then true else a && !sep e) es
 
 def sepStable (e : Ev) : Bool := e == .stable
-def sepAny (e : Ev) : Bool := e == .stable || e == .withdrawn
+def sepAny (e : Ev) : Bool := e == .stable || e == .withdrawn || e == .rolledBack
 
 private theorem armedAfter_append (sep : Ev → Bool) (a : Bool) (es : List Ev) (e : Ev) :
     armedAfter sep a (es ++ [e]) = (if e == .fire then true else armedAfter sep a es && !sep e) := by
@@ -105,6 +109,9 @@ private theorem flag_and_log {pc : PC} (h : Reach pc) :
     | stable x y _ =>
       rw [x, y, armedAfter_append, sepBy_append]
       simp [sepAny, ih.2]
+    | rolledBack x y _ =>
+      rw [x, y, armedAfter_append, sepBy_append]
+      simp [sepAny, ih.2]
     | withdrawn _ x y _ =>
       rw [x, y, armedAfter_append, sepBy_append]
       simp [sepAny, ih.2]
@@ -124,11 +131,13 @@ theorem C04_flag_iff_last_event_fire {pc : PC} (h : Reach pc) :
     cases e with
     | keep x y _ => rw [x, y]; exact ih
     | stable x y _ => rw [x, y]; simp
+    | rolledBack x y _ => rw [x, y]; simp
     | withdrawn _ x y _ => rw [x, y]; simp
     | fire _ x y _ => rw [x, y]; simp
 
-/-- Between two handler invocations there is always a completed exchange or a withdrawal of the need —
-    for every reachable state, i.e. every history and every schedule of the queue's worker. -/
+/-- Between two handler invocations there is always a completed exchange, a rollback into stable or a
+    withdrawal of the need — for every reachable state, i.e. every history and every schedule of the queue's
+    worker. -/
 theorem C04_second_fire_needs_exchange_or_withdrawal {pc : PC} (h : Reach pc) :
     sepBy sepAny false pc.events = true := (flag_and_log h).2
 
@@ -186,17 +195,29 @@ private theorem sepBy_congr {s1 s2 : Ev → Bool} (a : Bool) (es : List Ev) (h :
     simp only [sepBy]
     rw [h x (List.mem_cons_self ..), ih _ (fun e he => h e (List.mem_cons_of_mem _ he))]
 
-/-- Excluding exactly the finding: in a history in which negotiationNeededOp never withdrew a signalled
-    need, two handler invocations are always separated by a completed exchange. -/
-theorem C04_once_per_exchange_partial {pc : PC} (h : Reach pc) (hw : Ev.withdrawn ∉ pc.events) :
-    sepBy sepStable false pc.events = true := by
+/-- Excluding exactly the two findings: in a history in which negotiationNeededOp never withdrew a signalled
+    need and no rollback succeeded, two handler invocations are always separated by a completed exchange. -/
+theorem C04_once_per_exchange_partial {pc : PC} (h : Reach pc) (hw : Ev.withdrawn ∉ pc.events)
+    (hr : Ev.rolledBack ∉ pc.events) : sepBy sepStable false pc.events = true := by
   rw [sepBy_congr (s2 := sepAny) false pc.events]
   · exact (flag_and_log h).2
   · intro e he
     cases e with
     | fire => rfl
     | stable => rfl
+    | rolledBack => exact absurd he hr
     | withdrawn => exact absurd he hw
+
+/-- second witness against the literal third sentence: AddTrack (fire); CreateOffer; SetLocalDescription(offer);
+    SetLocalDescription(rollback) clears [[NegotiationNeeded]] on reaching stable and the check fires again — no
+    exchange completed in between (what W3C 4.4.1.5/4.7.3 prescribe for any description that ends in stable). -/
+def cexRollbackActs : List Act :=
+  [.call (.addTrack .video 0), .work none, .call .createOffer,
+   .call (.setLocal { offer := true, secs := [{ mid := 0, app := false, kind := .video, dir := .sendrecv, msid := some 0 }] } false),
+   .call (.rollback true), .work none]
+
+theorem C04_rollback_refire_events :
+    ((PC.run {} cexRollbackActs).map (·.events)) = some [.fire, .rolledBack, .fire] := by decide
 
 /-! ### clause 2: a change that requires renegotiation fires once stable -/
 
@@ -237,7 +258,7 @@ theorem C04_tail_keeps_check (pc : PC) (t : Tail) : check (runTail pc t).1 = che
     split
     · exact check_congr rfl rfl rfl (setCurDirs_view _ _ _ _)
     · rename_i trs hs
-      exact check_congr rfl rfl rfl ((startSenders_view hs).trans (setCurDirs_view _ _ _ _))
+      split <;> exact check_congr rfl rfl rfl ((startSenders_view hs).trans (setCurDirs_view _ _ _ _))
 
 /-! ### the pair the harness runs -/
 
@@ -263,7 +284,8 @@ private theorem world_sides_reach {w : World} (h : WReach w) : Reach w.a ∧ Rea
 theorem C04_pair {w : World} (h : WReach w) (s : Side) :
     (∀ f ∈ (w.get s).fired, f.sig = .stable ∧ f.closed = false ∧ f.needed = true)
     ∧ sepBy sepAny false (w.get s).events = true
-    ∧ (Ev.withdrawn ∉ (w.get s).events → sepBy sepStable false (w.get s).events = true)
+    ∧ (Ev.withdrawn ∉ (w.get s).events → Ev.rolledBack ∉ (w.get s).events →
+        sepBy sepStable false (w.get s).events = true)
     ∧ ((w.get s).quiescent = true → (w.get s).dcOpenFailed = false → (w.get s).sig = .stable →
         (w.get s).closed = false → (w.get s).pristine = false → check (w.get s) = true →
         (w.get s).isNN = true ∧ (w.get s).events.getLast? = some .fire) := by
@@ -307,6 +329,14 @@ example : ∃ pc, PC.run {} [.call (.setRemote pranswerOffer false), .call .crea
       .call (.setLocal { offer := false, secs := [{ mid := 0, app := false, kind := .video, dir := .recvonly, msid := none }] } true),
       .call (.addTransceiver .video .recvonly), .work none, .work none, .work (some true), .work none, .work none] = some pc ∧
     pc.sig = .haveLocalPranswer ∧ pc.queue = [] ∧ pc.running = none ∧ check pc = true ∧ pc.fired = [] := by
+  refine ⟨_, rfl, ?_⟩
+  decide
+
+-- a need raised while not stable fires once stable is reached by a rollback: remote offer, AddTransceiverFromKind
+-- (negotiationNeededOp stops at its stable test), SetRemoteDescription(rollback), queue drained
+example : ∃ pc, PC.run {} [.call (.setRemote pranswerOffer false), .work none, .work none,
+      .call (.addTransceiver .audio .recvonly), .call (.rollback false), .work (some true), .work none, .work none, .work none] = some pc ∧
+    pc.quiescent = true ∧ pc.sig = .stable ∧ pc.events = [.rolledBack, .fire] ∧ pc.fired.length = 1 := by
   refine ⟨_, rfl, ?_⟩
   decide
 
